@@ -323,13 +323,22 @@ fn repo_case(line: &str) -> String {
         };
         out.push(snapshot(&cls, &repo));
     }
+    // size of the test file: at most 8 chunks (tiny fixed chunk sizes with compression level 22 work
+    // but take seconds per kilobyte)
+    let fsize = match repo.config().chunker() {
+        Chunker::FixedSize => match repo.config().chunk_size() {
+            0 => 20000,
+            cs => cs.saturating_mul(8).min(20000),
+        },
+        Chunker::Rabin => 20000,
+    };
     drop(repo);
     // accepted configurations work: backup through the repository as the user has it, then the
     // cold part alone (as in disaster recovery / verification of the cold copy) passes check
     let end = catch_unwind(AssertUnwindSafe(|| -> Result<(), String> {
         let src = tempfile::tempdir().map_err(|e| e.to_string())?;
         let mut rng = SplitMix(7);
-        std::fs::write(src.path().join("a.bin"), fill(&mut rng, 20000, false)).map_err(|e| e.to_string())?;
+        std::fs::write(src.path().join("a.bin"), fill(&mut rng, fsize, false)).map_err(|e| e.to_string())?;
         let repo = new_repo2(&cold, hb).open(&creds).map_err(|e| format!("open:{}", es(e)))?.to_indexed_ids().map_err(es)?;
         let bo = BackupOptions::default().as_path(std::path::PathBuf::from("t"));
         let paths = PathList::from_string(src.path().to_str().unwrap()).map_err(es)?;
